@@ -150,9 +150,11 @@ def run_main_scenarios(spec, scratch):
             elif sc == 'cadence':
                 cmpx = build_harness('h5_final_compare', scratch, hdf5=True)
                 res = []
-                for extra_name, extra in (('plain', []), ('renorm', ['--RenormalizeCharge', '3']), ('track', ['--RenormalizeCharge', '2'])):
-                    a, rca, _ = run(['-T', '1.2', '-n', '3'] + extra, f'cad_{extra_name}_a')
-                    bb, rcb, _ = run(['-T', '1.2', '-n', '4', '--SavePhaseSpace', '1'] + extra, f'cad_{extra_name}_b')
+                rfmod = ['--RFPhaseModAmplitude', '0.5', '--RFPhaseModFrequency', '6e4', '-N', '1000']      # deterministic modulation, > 4096 steps
+                for extra_name, extra, T, na, nb_ in (('plain', [], '1.2', '3', '4'), ('renorm', ['--RenormalizeCharge', '3'], '1.2', '3', '4'),
+                                                      ('track', ['--RenormalizeCharge', '2'], '1.2', '3', '4'), ('rfmod', rfmod, '4.3', '100', '30')):
+                    a, rca, _ = run(['-T', T, '-n', na] + extra, f'cad_{extra_name}_a')
+                    bb, rcb, _ = run(['-T', T, '-n', nb_, '--SavePhaseSpace', '1'] + extra, f'cad_{extra_name}_b')
                     p = subprocess.run([cmpx, a, bb], capture_output=True, text=True, timeout=120) if not isinstance(cmpx, tuple) else None
                     res.append((extra_name, rca, rcb, p.returncode if p else 3, (p.stdout if p else '')[-400:]))
                 failed = any(r[1] != 0 or r[2] != 0 or r[3] == 1 for r in res)
